@@ -49,6 +49,7 @@ LEDGER = {
                     [M("kv,ESDTTransfer,acct"), M("kv,ESDTNFTTransfer,create,flags,handover", hs=("u0a", "u1a"), accsample=2)]),
                 need=dict(kv_ok=10, kv_prot_rej=5, tok_ok=5)),
     "C06": dict(profile="gas", flags=["-gassweep"], preds=["P06_NoGasCreated", "P06_Underfunded"],
+                extra_runs=[("acctlevel", ["-gassweep"], 0.4)],
                 mc=([M("ESDTTransfer,kv,create,ESDTNFTTransfer,MultiESDTNFTTransfer", gas=(0, 9, 10, 11, 60, 1000), hs=("u0a", "u1a"), rejected=False)],
                     [M("ESDTTransfer,kv,create,ESDTNFTTransfer,MultiESDTNFTTransfer", gas=(0, 9, 10, 11, 60, 1000), hs=("u0a", "u1a"), rejected=False), M("metaops,mintburn,acct,create", gas=(0, 9, 10, 11, 20, 1000), hs=("u0a", "u1a"), rejected=False, accsample=4)]),
                 need=dict(gas_max=20, gas_rej=20, underfunded=20, priced=50)),
